@@ -425,6 +425,25 @@ func C10(c *core.Ctx) {
 		}
 		c.Floor("R2", n, 1, "NewVolumeMeasurement calls")
 	}
+	// "with the measurement IEs selected by the URR's measurement method and information": which counters the Volume
+	// Measurement IE carries is decided by its flag octet, and SetFlags only ORs bits in — so nothing else may write
+	// that octet (a conversion that copies the data plane's own flag word leaks packet counters nobody asked for)
+	if flagsF := p.Field(pkgReport, "VolumeMeasure", "Flags"); flagsF == nil {
+		c.Anchor("R2", "report.VolumeMeasure.Flags")
+	} else {
+		setFlags := p.SSAFn(p.Method(pkgReport, "VolumeMeasure", "SetFlags"))
+		nW := 0
+		for _, fn := range p.OwnFuncs() {
+			k := 0
+			for _, st := range storesToField(fn, flagsF) {
+				nW++
+				k++
+				c.Check("R2", fmt.Sprintf("volume-flags-writer:%s#%d", core.FnName(fn), k), st.Pos(), fn == setFlags && setFlags != nil,
+					"the flag octet of a Volume Measurement is written only by VolumeMeasure.SetFlags, from the URR's measurement information")
+			}
+		}
+		c.Floor("R2", nW, 1, "writes of VolumeMeasure.Flags")
+	}
 
 	// R3 profile
 	for _, m := range []string{"CreateURR", "UpdateURR"} {
@@ -477,6 +496,83 @@ func C10(c *core.Ctx) {
 				}
 				c.Check("R3", fmt.Sprintf("profile-update-if-present:%s", f.Name()), st.Pos(), present,
 					"in Update URR the stored flag "+f.Name()+" changes only under `child.Type == ie."+owner+"`, from that child")
+			}
+		})
+		// the profile decoded by a helper and stored as a whole (urrInfo.MeasureInformation = decode(...)): the helper's
+		// flag stores are judged like direct ones, and in Update URR the whole-value store needs the same presence test
+		core.Instrs(fn, func(in ssa.Instruction) {
+			st, ok := in.(*ssa.Store)
+			if !ok {
+				return
+			}
+			fa, ok := st.Addr.(*ssa.FieldAddr)
+			if !ok {
+				return
+			}
+			f := core.FieldOfAddr(fa)
+			nn, isN := f.Type().(*types.Named)
+			if !isN || nn.Obj().Pkg() == nil || nn.Obj().Pkg().Path() != pkgReport || (nn.Obj().Name() != "MeasureMethod" && nn.Obj().Name() != "MeasureInformation") {
+				return
+			}
+			val := st.Val
+			if ld, isLd := val.(*ssa.UnOp); isLd && ld.Op == token.MUL {
+				if al, isAl := ld.X.(*ssa.Alloc); isAl {
+					if v, o := aggregateSingleStore(al); o {
+						val = v
+					} else {
+						return // a literal filled in place: its field stores were seen above
+					}
+				}
+			}
+			cl, isCall := val.(*ssa.Call)
+			if !isCall {
+				return
+			}
+			h := core.StaticFn(cl)
+			if h == nil || !p.IsOwnFn(h) || h.Blocks == nil {
+				return
+			}
+			core.Instrs(h, func(in2 ssa.Instruction) {
+				st2, ok := in2.(*ssa.Store)
+				if !ok {
+					return
+				}
+				fa2, ok := st2.Addr.(*ssa.FieldAddr)
+				if !ok {
+					return
+				}
+				f2 := core.FieldOfAddr(fa2)
+				if b, isB := f2.Type().Underlying().(*types.Basic); !isB || b.Kind() != types.Bool || f2.Pkg() == nil || f2.Pkg().Path() != pkgReport {
+					return
+				}
+				n++
+				c2, ok := st2.Val.(*ssa.Call)
+				okName := ok && core.Callee(c2) != nil && core.Callee(c2).Name() == "Has"+f2.Name()
+				c.Check("R3", fmt.Sprintf("profile:%s:%s", m, f2.Name()), st2.Pos(), okName, fmt.Sprintf("profile flag %s is taken from Has%s() (in helper %s)", f2.Name(), f2.Name(), core.FnName(h)))
+			})
+			if m == "UpdateURR" {
+				owner := map[string]string{"MeasureMethod": "MeasurementMethod", "MeasureInformation": "MeasurementInformation"}[nn.Obj().Name()]
+				present := false
+				if k := p.Const(core.PkgIE, owner); k != nil {
+					kv, _ := constant.Int64Val(constant.ToInt(k.Val()))
+					for _, eq := range eqFacts(st.Block()) {
+						cv, isK := core.ConstInt(eq[1])
+						if !isK || cv != kv {
+							continue
+						}
+						root, names := core.FieldPath(eq[0])
+						if len(names) != 1 || names[0] != "Type" {
+							continue
+						}
+						for _, a := range cl.Call.Args {
+							if core.Unwrap(a) == core.Unwrap(root) {
+								present = true
+							}
+						}
+					}
+				}
+				c.Check("R3", "profile-update-if-present:"+nn.Obj().Name(), st.Pos(), present,
+					"in Update URR the stored "+nn.Obj().Name()+" is replaced only under `child.Type == ie."+owner+"`, decoded from that child: an Update URR without the IE must leave the profile as it is")
 			}
 		})
 		c.Floor("R3", n, 8, "profile flags set in Sess."+m)
@@ -538,6 +634,7 @@ func C10(c *core.Ctx) {
 		}
 	}
 	reportDestination(c, "R4")
+	nodeIDResolved(c, "R4")
 	if fn := fnOf(c, "R4", pkgPfcp, "PfcpServer", "ServeReport"); fn != nil {
 		for _, name := range []string{"serveUSAReport", "serveDLDReport"} {
 			for _, ci := range core.Calls(fn, p.Method(pkgPfcp, "PfcpServer", name)) {
@@ -930,7 +1027,11 @@ func reportDestination(c *core.Ctx, rule string) {
 		core.Instrs(up, func(in ssa.Instruction) {
 			if st, ok := in.(*ssa.Store); ok {
 				if fa, ok := st.Addr.(*ssa.FieldAddr); ok && fa.X == ssa.Value(core.Param(up, 0)) {
-					kept[core.FieldOfAddr(fa).Name()] = true
+					// "keeps current" = on every path: a takeover that can return before the write (an early
+					// exit for some state of the node table) leaves the session pointing at the previous SMF
+					if all, _ := dominatesReturns(st); all {
+						kept[core.FieldOfAddr(fa).Name()] = true
+					}
 				}
 			}
 		})
